@@ -15,9 +15,9 @@ SPEC = dict(
          'random k-way splits up to 40 pieces) is compared byte-wise with the one-shot Sha256::hash digest of the same message. '
          'Aliased calls: result == MAC/digest of copies of the inputs taken before the call (same call on the copies with a separate result buffer), every byte of the shared block '
          'outside the result and every non-shared input unchanged; the aliased results are also recomputed offline. '
-         'mt / mt-tsan: case = 2..8 threads (index mod 7) x 30..120 rounds over 4..10 seeded work items per thread (hash(), a reused hasher of its own fed in 1..3 pieces with reset() in '
+         'mt / mt-tsan: case = 2..8 threads (index mod 7), each with 4..10 seeded work items of its own and as many rounds over them as make the same 6000..20000 compressed blocks for every thread (hash(), a reused hasher of its own fed in 1..3 pieces with reset() in '
          'between, a fresh hasher per call, hmac(), the RFC 2104 construction from two hashers of its own), all threads released by one barrier; every result is compared with the value of '
-         'the same input computed (and recorded for the offline comparison) by the main thread before the threads existed; one serial control round of every work list first; the '
+         'the same input computed (and recorded for the offline comparison) by the main thread before the threads existed; two serial control rounds of every work list first; the '
          'ThreadSanitizer build of the same mode reports unsynchronised accesses to state shared between hashers. '
          'Offline: every one-shot digest and every MAC is recomputed with Python hashlib/hmac (vlib/sha_ref.py), which is itself anchored on FIPS 180-4 / RFC 4231 vectors.',
     assumptions=['ASan/UBSan red zones: messages, keys, pieces, the 32-byte digest destination and the hasher object live in exactly-sized heap blocks',
@@ -38,8 +38,8 @@ SPEC = dict(
         job('alias', 'h_sha', 'alias', cases={Q: 7236, T: 72360}, procs=16, rec=True),
         job('big', 'h_sha', 'big', cases={Q: 5, T: 7}, procs={Q: 5, T: 7}, rec=True, timeout=1200),
         job('vectors', 'h_sha', 'vectors', cases=-1, procs=1, rec=True),
-        job('mt', 'h_sha', 'mt', cases={Q: 420, T: 8400}, procs=4, weight=4, rec=True, timeout=1200),
-        job('mt-tsan', 'h_sha', 'mt-tsan', variant='tsan', cases={Q: 140, T: 2800}, procs=4, weight=4, rec=True, timeout=1200),
+        job('mt', 'h_sha', 'mt', cases={Q: 280, T: 4000}, procs=4, weight=4, rec=True, timeout=1200),
+        job('mt-tsan', 'h_sha', 'mt-tsan', variant='tsan', cases={Q: 84, T: 800}, procs=4, weight=4, rec=True, timeout=1200),
     ],
     floors={Q: dict(digests=500000, updates=1500000, chunkings2=300000, chunkings3=500000, chunkings_k=10000, single_byte_runs=900, hmacs=10000,
                     hasher_reuse_after_finalize=100000, hasher_reset_mid_message=100000, offline_digests_compared=4900, offline_macs_compared=10000,
@@ -47,6 +47,9 @@ SPEC = dict(
                     alias_hmac_result_is_key_buffer=8000, alias_hmac_result_overlaps_key=3000, alias_hmac_result_in_middle_of_key=1000, alias_hmac_result_in_message_of_32_or_more=2000,
                     alias_hmac_result_in_middle_of_message=1000, alias_hmac_shared_block=3000, alias_hmac_result_overlaps_key_and_message=300, alias_hash_result_in_data=3000,
                     alias_finalize_into_last_input=3000, alias_results_compared=25000, alias_bytes_outside_result_compared=500000, offline_aliased_results_compared=20000,
+                    mt_cases=360, mt_results_compared=1000000, mt_static_hash_digests=150000, mt_reused_hasher_digests=150000, mt_fresh_hasher_digests=150000, mt_static_hmacs=150000,
+                    mt_hmacs_from_own_hashers=150000, mt_control_results_compared=16000, mt_expected_digests_recorded=5000, mt_expected_macs_recorded=3000,
+                    mt_cases_with_observed_overlap=250, mt_thread_rounds_during_which_another_thread_advanced=10000, mt_max_threads=8, **{'set:mt_thread_counts': 7},
                     **{'set:padding_classes': 6, 'set:hmac_key_classes': 4, 'set:bit_length_classes': 2, 'set:alias_key_classes': 5}),
             T: dict(digests=14000000, updates=35000000, chunkings2=500000, chunkings3=13000000, chunkings_k=300000, single_byte_runs=900, hmacs=200000,
                     lengths_with_all_3way_splits=903, hasher_reuse_after_finalize=100000, hasher_reset_mid_message=100000,
@@ -54,6 +57,9 @@ SPEC = dict(
                     alias_hmac_result_is_key_buffer=160000, alias_hmac_result_overlaps_key=60000, alias_hmac_result_in_middle_of_key=20000, alias_hmac_result_in_message_of_32_or_more=40000,
                     alias_hmac_result_in_middle_of_message=20000, alias_hmac_shared_block=60000, alias_hmac_result_overlaps_key_and_message=6000, alias_hash_result_in_data=60000,
                     alias_finalize_into_last_input=60000, alias_results_compared=500000, alias_bytes_outside_result_compared=10000000, offline_aliased_results_compared=400000,
+                    mt_cases=4800, mt_results_compared=13000000, mt_static_hash_digests=2500000, mt_reused_hasher_digests=2500000, mt_fresh_hasher_digests=2500000, mt_static_hmacs=2500000,
+                    mt_hmacs_from_own_hashers=2500000, mt_control_results_compared=220000, mt_expected_digests_recorded=65000, mt_expected_macs_recorded=43000,
+                    mt_cases_with_observed_overlap=3500, mt_thread_rounds_during_which_another_thread_advanced=150000, mt_max_threads=8, **{'set:mt_thread_counts': 7},
                     **{'set:padding_classes': 6, 'set:hmac_key_classes': 4, 'set:bit_length_classes': 4, 'set:alias_key_classes': 5})},
     post=sha_ref.post,
 )
